@@ -226,19 +226,30 @@ theorem startsOf_serial (l : List Nat) : startsOf (ExecQ.serial l) = l := by
   | nil => rfl
   | cons j r ih => simp [ExecQ.serial, startsOf, ih]
 
-/-- **The queue part of `Pipeline` refines the `Conn.Execute` job queue** (non-blocking modes, where
-    `parser.Execute` is `nbio.Conn.Execute`).  For EVERY action sequence, `execTrace` — the translation of the
+/-- **Forward simulation of the queue part of `Pipeline` by the `Conn.Execute` job queue** (direction
+    `Pipeline` → `ExecQ` only; non-blocking modes, where `parser.Execute` is `nbio.Conn.Execute`).  Read the limits at
+    the end of this comment before citing it.  For EVERY action sequence, `execTrace` — the translation of the
     enabled `Pipeline` actions into the `ExecQ` actions they stand for (`parse` ↦ `submit` [+ `spawn` for the head
     job], `start` ↦ `start`, `finish` ↦ `finish` [, `close`], `next`, `extClose` ↦ `close`, `write`/`flush` ↦ nothing)
     — is a run of `ExecQ` (the model the job-queue family ties to `conn.go` with hjobq) that ends in a state related
     to the `Pipeline` state: same closed flag, no index panic, the accepted jobs are the finished ones followed by
     `queue`, `fin` counts the finished ones, `handled` is the list of `job()` entries of the `ExecQ` log, and the job
-    running in `ExecQ` is the head of `queue` exactly while `cur` is set.  So `Pipeline.step`'s treatment of `queue`
-    is no longer only *written against* C05's specification: it is simulated step by step by `ExecQ.step`, and the
-    last two conjuncts are C05's theorems (`c05_one_at_a_time`, `c05_fifo_exactly_once`) transported along the
-    simulation — handlers are entered one at a time, in acceptance order, each once.
-    Not covered: the blocking modes (`cfg.sync`, where `Execute` runs the job inline and no `ExecQ` exists), and the
-    other two cited components (parser, response writer). -/
+    running in `ExecQ` is the head of `queue` exactly while `cur` is set.  So every `Pipeline` run has a matching
+    `ExecQ` run.  The last four conjuncts are obtained from C05's theorems about that `ExecQ` run
+    (`c05_one_at_a_time`, `c05_fifo_exactly_once`) and are WEAKER than those theorems: `handled = done ++ running`,
+    at most one running job, `done <+: acc`, and `acc.Nodup → handled.Nodup` whose premise is NOT discharged here —
+    i.e. handlers one at a time, in acceptance order, each AT MOST once; C05's completeness conjunct (everything
+    accepted is run once the drainer is gone) is not carried over, and `Pipeline`'s own `c10_handlers_in_order`
+    (`handled = 0 … h-1`, true by construction of `step`) is stronger.
+    Limits.  (1) Direction: this is a forward simulation `Pipeline` → `ExecQ`; there is NO converse — no theorem
+    maps an `ExecQ` run (the model hjobq ties to conn.go) to a `Pipeline` schedule, so the `Pipeline` theorems are
+    not transferred to the real interleavings of `Conn.Execute`.  (2) `execTrace` is a definition of this proof and
+    uses only `submit _ false`, `spawn _ false`, `start`, `finish 0 false`, `next 0 false`, `close` — no
+    `MustExecute`, no panicking job, `big = false` —, with submit+spawn and finish[+close]+next fused into one
+    `Pipeline` action each (their inner interleavings are not exercised).  (3) The relation covers `queue`,
+    `closed`, `fin`, `handled` and the flag `cur.isSome` only — not `next`, `wire`, `pending`, `dropped`,
+    `byServer`.  (4) Not covered: the blocking modes (`cfg.sync`, where `Execute` runs the job inline and no
+    `ExecQ` exists), and the other two cited components (parser, response writer). -/
 theorem c10_queue_refines_execq (cfg : Cfg α) (hsync : cfg.sync = false) (acts : List Act) :
     let s := run cfg init acts
     let e := ExecQ.run .conn ExecQ.init (execTrace cfg init acts)
@@ -304,7 +315,10 @@ theorem c10_queue_refines_execq (cfg : Cfg α) (hsync : cfg.sync = false) (acts 
     `fin, fin+1, …, next-1` — nothing the parser completed was refused or lost, closed connection or not —, the handlers
     entered so far are exactly `0, 1, …, fin-1` plus request `fin` while a job is running (each once, in order, never two
     at a time), and a running job belongs to a request that was parsed.  Quantifies over all schedules, i.e. over more
-    interleavings than the inline executor has (see `c10_sync_inline` for that discipline). -/
+    interleavings than the inline executor has.  A statement about `Pipeline` alone, read off its invariant (`Inv`):
+    it holds because of how `parse` / `finish` are written, it is not derived from a model of the `SyncExecutor`
+    (that `Execute` is `f(); return true` there is read off the source).  It is the only theorem of this pair that
+    covers `pipedrv`'s blocking-mode runs (see `c10_sync_inline`). -/
 theorem c10_queue_sync (cfg : Cfg α) (hsync : cfg.sync = true) (acts : List Act) :
     let s := run cfg init acts
     s.queue = List.range' s.fin (s.next - s.fin) ∧ s.fin ≤ s.next ∧
@@ -328,7 +342,12 @@ theorem c10_queue_sync (cfg : Cfg α) (hsync : cfg.sync = true) (acts : List Act
     completed only while no job is pending (`inlineSched`: every `parse` of the schedule finds the queue empty).  Then
     `Pipeline`'s queue degenerates to a call: it never holds more than the one job being run, the parser is never more
     than one request ahead of the finished jobs, and the handlers entered are `0 … fin-1` plus the running one —
-    acceptance order = run order = request order, with no queueing at all. -/
+    acceptance order = run order = request order, with no queueing at all.
+    NOT tied to the driver: `inlineSched` is a hypothesis that `pipedrv` never evaluates and that NONE of its runs
+    satisfies — `mkCfg` gives every response two conn writes (so `finish` is not enabled after the single `write` of a
+    `completion` round and the next round's `parse` finds the queue non-empty) and `forcedActs` parses everything
+    first.  The theorem describes what the inline executor's schedules would give on the model; no printed
+    prediction rests on it. -/
 theorem c10_sync_inline (cfg : Cfg α) (hsync : cfg.sync = true) (acts : List Act)
     (hin : inlineSched cfg init acts) :
     let s := run cfg init acts
@@ -354,8 +373,9 @@ def inlineWitness : Cfg Nat :=
   { reqs := [{ major := 1, minor := 1, connVals := [], pieces := [[1, 2]] },
              { major := 1, minor := 1, connVals := [], pieces := [[3]] }], sync := true }
 
-/-- `c10_sync_inline` is not vacuous: the rounds `pipedrv` appends (`completion`) respect the inline discipline on a
-    history whose responses are one conn write each, and run both handlers in order. -/
+/-- `c10_sync_inline` is not vacuous: `completion` rounds respect the inline discipline on a hand-made history whose
+    responses are ONE conn write each, and run both handlers in order.  This is not one of the driver's runs: the
+    configurations `pipedrv` builds (`mkCfg`) have two writes per response and do not satisfy `inlineSched`. -/
 theorem c10_sync_inline_witness :
     inlineSched inlineWitness init (completion 2) ∧
       (run inlineWitness init (completion 2)).handled = [0, 1] ∧
